@@ -49,6 +49,7 @@ func dial(ctx context.Context) (*websocket.Conn, error) {
 		// everybody waiting for the transport's lock) beyond cancel or Abort.
 		var lock sync.Mutex
 		var netConn net.Conn
+		var dialed bool
 		d.NetDialContext = func(ctx context.Context, network, addr string) (net.Conn, error) {
 			c, err := (&net.Dialer{}).DialContext(ctx, network, addr)
 			lock.Lock()
@@ -61,7 +62,7 @@ func dial(ctx context.Context) (*websocket.Conn, error) {
 			select {
 			case <-ctx.Done():
 				lock.Lock()
-				if netConn != nil {
+				if netConn != nil && !dialed {
 					netConn.Close()
 				}
 				lock.Unlock()
@@ -69,6 +70,11 @@ func dial(ctx context.Context) (*websocket.Conn, error) {
 			}
 		}()
 		conn, response, err := d.DialContext(ctx, u.String(), header)
+		// from here on the connection belongs to the transport: the end of this
+		// call's context (every call's context ends) must not close it any more
+		lock.Lock()
+		dialed = true
+		lock.Unlock()
 		close(done)
 		if response != nil {
 			response.Body.Close()
